@@ -486,13 +486,11 @@ theorem progSo_sequence (root : Members) (ext : Bool) (adds : Members)
       · rename_i fs1 c1 h1
         split at hx
         · cases hx
-        · split at hx
-          · cases hx
-          · rename_i fs2 c2 h2
-            cases hx
-            have := decComponentsS_le_so root ihr _ _ _ _ _ h1
-            have := decComponentsS_le_so adds iha _ _ _ _ _ h2
-            omega) h
+        · rename_i fs2 c2 h2
+          cases hx
+          have := decComponentsS_le_so root ihr _ _ _ _ _ h1
+          have := decComponentsS_le_so adds iha _ _ _ _ _ h2
+          omega) h
     omega
 
 theorem progSo_choice (root : Alts) (ext : Bool) (adds : Alts)
